@@ -2,6 +2,7 @@ package main
 
 import (
 	"fmt"
+	"go/constant"
 	"go/token"
 	"go/types"
 	"strings"
@@ -466,10 +467,11 @@ func isConstInt(v ssa.Value, n int64) bool {
 	if !ok || c.Value == nil {
 		return false
 	}
-	if !isIntegerish(c.Type()) {
+	if c.Value.Kind() != constant.Int {
 		return false
 	}
-	return c.Int64() == n
+	iv, exact := constant.Int64Val(c.Value)
+	return exact && iv == n
 }
 
 func isIntegerish(t types.Type) bool {
